@@ -297,8 +297,7 @@ func cmdRecord(args []string) {
 			common.BlockChain = n.Ch
 			wallet.Disable()
 			curMinBal = minBal
-			common.CFG.AllBalances.MinValue = curMinBal
-			wallet.LoadBalancesFromUtxo()
+			loadBalances()
 		}
 		enc.Encode(map[string]interface{}{"ev": "reset", "b": 0, "acc": false, "later": false, "tip": 0, "unew": []conc.UtxoEnt{}, "gone": []int{}})
 		nev++
@@ -334,7 +333,7 @@ func cmdRecord(args []string) {
 					if rnd.Intn(2) == 0 {
 						toggleMinBal() // ... also under the other dust limit
 					}
-					wallet.LoadBalancesFromUtxo()
+					loadBalances()
 				}
 				if f := checkBalances(n, ents); f != nil {
 					problems = append(problems, fmt.Sprintf("balance index after order %d block %d: %s", o, b, f.what))
